@@ -66,11 +66,11 @@ def c01(res, tier, rng, wd):
                                      limit=None if thorough else 600)
         scs += s
         sid += len(s)
-        n = 400 if thorough else 60
+        n = 3000 if thorough else 60
         s = e1.gen_random_sequences(rng, framing, n, sid, lat, small=True)
         scs += s
         sid += len(s)
-        s = e1.gen_random_sequences(rng, framing, 40 if thorough else 8, sid, lat, small=False, frames=(1, 8))
+        s = e1.gen_random_sequences(rng, framing, 300 if thorough else 8, sid, lat, small=False, frames=(1, 8))
         scs += s
         sid += len(s)
     # a frame without a function code (length field 1) is never answered -- and the requests behind it are, in order
@@ -284,10 +284,10 @@ def c02(res, tier, rng, wd):
     for framing in ("tcp", "rtu"):
         scs += e1.gen_lattice_scenarios(rng, framing, per_scenario=20, sid0=len(scs),
                                         limit=None if thorough else 500, auth_modes=AUTH_MODES)
-        scs += e1.gen_random_sequences(rng, framing, 400 if thorough else 60, len(scs), lat,
+        scs += e1.gen_random_sequences(rng, framing, 3000 if thorough else 60, len(scs), lat,
                                        auth_modes=AUTH_MODES, p_invalid=0.5)
     # nothing after a bad frame is processed: valid writes behind a malformed header / CRC error
-    for k in range(200 if thorough else 30):
+    for k in range(1500 if thorough else 30):
         framing = rng.choice(["tcp", "rtu"])
         pre = [e1.random_valid_pdu(rng) for _ in range(rng.randint(0, 4))]
         post = [e1.req_wsr(rng.randrange(100), 7), e1.req_wmc(3, [True] * 5)]
@@ -936,7 +936,7 @@ def c19(res, tier, rng, wd):
     vf.design_run(res, "C19", "FfiDatabase_MC-neg(lock per op)", "FfiDatabase_MC.tla", "Spec",
                   {"Writers": "{1, 2}", "Block": 3, "LockMode": '"op"'}, ["ReadsSeeWholeTransactions"],
                   expect_violation="ReadsSeeWholeTransactions", workers=4)
-    scs = e5.gen_db_seq(rng, 120 if thorough else 25, thorough) + e5.gen_db_stress(thorough)
+    scs = e5.gen_db_seq(rng, 1500 if thorough else 25, thorough) + e5.gen_db_stress(thorough)
     res.samples += [{"tag": s["tag"], "first_steps": [json.dumps(x)[:160] for x in s.get("steps", [])[:3]]} for s in scs[:2]]
     report_e5(res, "C19", e5.check_scripts(res, scs, wd, "c19"))
     res.assumptions = E5_ASSUME + ["atomicity on the real code is stress-sampled (no deterministic scheduler between tokio, std::sync::Mutex "
